@@ -737,10 +737,13 @@ m = importlib.util.module_from_spec(spec); spec.loader.exec_module(m)
 a = json.loads(sys.argv[1])
 try:
     m.compile_requirements({{k: Path(v) for k, v in a["ins"].items()}}, Path(a["solution"]), upgrade=a["upgrade"],
+                           constraints=({{k: Path(v) for k, v in a["constraints"].items()}} if a.get("constraints") else None),
                            no_index=a["no_index"], wheeldir=(Path(a["wheeldir"]) if a["wheeldir"] else None))
     print("RESULT Done")
 except BaseException as ex:
-    print("RESULT " + type(ex).__name__)
+    cat = ("ECompilation" if type(ex).__name__ == "CompilationError" else "EOSError" if isinstance(ex, OSError)
+           else "EValueError" if isinstance(ex, ValueError) else "EOther")
+    print("RESULT Uncaught " + cat)
 """
 
 
@@ -884,11 +887,19 @@ def bzl_scenarios(fx: Dict[str, Path]) -> List[Tuple[str, Dict[str, Any], List[T
     (w / "bzl_ok.in").write_text(f"--find-links {fx['links']}\nfoo\n")
     (w / "bzl_nocand.in").write_text(f"--find-links {fx['links']}\nnothere\n")
     (w / "bzl_plain.in").write_text("foo\n")
+    (w / "bzl_badline.in").write_text("foo ===== what\n")
     base = {"solution": str(w / "no-such-solution.txt"), "upgrade": True, "no_index": True}
     return [
         ("success", dict(base, ins={"ok": str(w / "bzl_ok.in")}), []),
         ("no-candidate", dict(base, ins={"nc": str(w / "bzl_nocand.in")}), [("SCompile", "ENoCandidate")]),
         ("no-repository", dict(base, ins={"p": str(w / "bzl_plain.in")}), [("SBuildRepo", "EValueError")]),
+        # exits while the inputs are loaded (before the wheel directory is made on the unchanged tree)
+        ("bad-requirement-line", dict(base, ins={"b": str(w / "bzl_badline.in")}), [("SInputs", "EValueError")]),
+        ("missing-requirements-file", dict(base, ins={"m": str(w / "no-such-file.in")}), [("SInputs", "EOSError")]),
+        ("bad-constraint-line", dict(base, ins={"ok": str(w / "bzl_ok.in")}, constraints={"c": str(w / "bzl_badline.in")}),
+         [("SConstraints", "EValueError")]),
+        ("missing-constraints-file", dict(base, ins={"ok": str(w / "bzl_ok.in")}, constraints={"c": str(w / "no-such-cons.txt")}),
+         [("SConstraints", "EOSError")]),
     ]
 
 
@@ -910,7 +921,6 @@ def run_bzl_case(fx: Dict[str, Path], name: str, a: Dict[str, Any], user: bool, 
             "user_exists": userdir.exists() if user else None}
 
 
-BZL_END = {"Done": "Done", "Uncaught ECompilation": "CompilationError", "Uncaught EValueError": "ValueError"}
 
 
 def run_bzl(ctx: Ctx, fx: Dict[str, Path]) -> None:
@@ -922,7 +932,7 @@ def run_bzl(ctx: Ctx, fx: Dict[str, Path]) -> None:
     answers = run_model("C15", lines)
     for (n, a, s, u), o, ans in zip(jobs, results, answers):
         t = ans.rsplit(" ", 1)
-        exp = {"result": BZL_END.get(t[0], t[0]), "removed": t[1] == "1"}
+        exp = {"result": t[0], "removed": t[1] == "1"}
         obs = {"result": o["result"], "removed": (not o["user_exists"]) if u else (o["tmp_left"] == 0)}
         ctx.count("level:BZL")
         ctx.count("bzl:" + n + (":user" if u else ":tmp"))
@@ -930,6 +940,8 @@ def run_bzl(ctx: Ctx, fx: Dict[str, Path]) -> None:
                  sample={"scenario": n, "user_dir": u, "impl": obs, "model": exp} if (n == "success") else None)
         if obs != exp:
             ctx.mismatch("bzl-exit", {"scenario": n, "user_dir": u}, obs, exp)
+        if u and o["tmp_left"] != 0:
+            ctx.mismatch("bzl-user-mode-tmp", {"scenario": n, "user_dir": u}, o["tmp_left"], 0)
 
 
 # ----------------------------------------------------------------------------------------
@@ -1263,18 +1275,41 @@ def oracle_cli(ctx: Ctx, only: Optional[Tuple[str, bool]] = None) -> Optional[Di
     return None
 
 
+def oracle_bzl(ctx: Ctx, only: Optional[Tuple[str, bool]] = None) -> Optional[Dict[str, Any]]:
+    """private/compiler.py compile_requirements: whatever way it ends, nothing is left in TMPDIR and a
+    wheeldir handed in by the caller still exists."""
+    fx = cli_fixture(ctx)
+    i = 3000
+    for name, a, script in bzl_scenarios(fx):
+        for user in (False, True):
+            if only is not None and only != (name, user):
+                continue
+            i += 1
+            o = run_bzl_case(fx, name, a, user, i)
+            if user and not o["user_exists"]:
+                return {"kind": "bzl", "input": {"scenario": name, "user_dir": True, "args": {k: v for k, v in a.items()}},
+                        "why": "compile_requirements deleted the wheeldir supplied by the caller"}
+            if o["tmp_left"] != 0:
+                return {"kind": "bzl", "input": {"scenario": name, "user_dir": user, "args": {k: v for k, v in a.items()}},
+                        "why": f"compile_requirements ended with {o['result']} and left {o['tmp_left']} entr(y/ies) in TMPDIR: the temporary wheel directory was not removed"}
+    return None
+
+
 def search(ctx: Ctx) -> Optional[Dict[str, Any]]:
     mods = _imports()
     wd = ctx.tmpdir() / "oracle-wheeldir"
     wd.mkdir(exist_ok=True)
     suspects: List[Dict[str, Any]] = []
     cli_first = None
+    bzl_first = None
     for mm in ctx.mismatches:
         c = mm["case"]
         if isinstance(c, dict) and "history" in c:
             suspects.append(history_from_json(c["history"]))
         if mm["where"] in ("cli-exit",) and isinstance(c, dict):
             cli_first = (c["scenario"], c["user_dir"])
+        if mm["where"] in ("bzl-exit", "bzl-user-mode-tmp") and isinstance(c, dict) and bzl_first is None:
+            bzl_first = (c["scenario"], c["user_dir"])
     for h in suspects:
         why = oracle_history(mods, wd, h)
         if why:
@@ -1283,10 +1318,17 @@ def search(ctx: Ctx) -> Optional[Dict[str, Any]]:
         r = oracle_cli(ctx, cli_first)
         if r:
             return r
+    if bzl_first is not None:
+        r = oracle_bzl(ctx, bzl_first)
+        if r:
+            return r
     r = oracle_pages(mods)
     if r:
         return r
     r = oracle_cli(ctx)
+    if r:
+        return r
+    r = oracle_bzl(ctx)
     if r:
         return r
     rng = ctx.rng
@@ -1311,6 +1353,8 @@ def replay(ctx: Ctx, payload: Dict[str, Any]) -> bool:
         return oracle_pages(mods) is not None
     if fi["kind"] == "cli":
         return oracle_cli(ctx, (fi["input"]["scenario"], fi["input"]["user_dir"])) is not None
+    if fi["kind"] == "bzl":
+        return oracle_bzl(ctx, (fi["input"]["scenario"], fi["input"]["user_dir"])) is not None
     return False
 
 
